@@ -305,6 +305,15 @@ def step (st : DState) (line : String) : DState × String :=
     | some L => if !(w.wOK L) then bad else (st, s!"ok r{w.rules L}")
     | none => bad
   | "mut" :: _ => (st, "ok")        -- the caller edits a container it holds: nothing to do (C12)
+  | ["sattr", v, a, val] =>
+    -- `v.a<a> = <val>` : a user attribute is (re)assigned
+    match parseId 'V' v, a.toNat?, val.toNat? with
+    | some v, some a, some val =>
+      if !(w.vOK v) then bad else
+      let attrs' := if (w.attrs v).any (·.1 == a) then (w.attrs v).map (fun p => if p.1 == a then (a, val) else p)
+                    else w.attrs v ++ [(a, val)]
+      ({ st with w := { w with attrs := upd w.attrs v attrs' } }, "ok")
+    | _, _, _ => bad
   | "attr" :: _ => (st, "ok")      -- runtime attributes holding shared tuples / frozensets (C10): not part of the world
   | "pktrace" :: root :: heap :: _ =>
     -- heap: `;`-separated `id=a` (atom) | `id=t:k:b,b:` (tuple-like) | `id=n:k:b,b:a,a`
